@@ -4,7 +4,7 @@ from __future__ import annotations
 import copy
 import random
 
-from ..engine import live, monitors, specgen, suite
+from ..engine import c12x, live, monitors, specgen, suite
 from ..runner import Env, Outcome, Violation
 
 THEOREMS = ["C12_roundtrip_stable", "C12_resumed_step", "C12_resumed_slots_ok", "C12_queued_keep_retry_state", "C12_waiting_keep_retry_state",
@@ -144,4 +144,10 @@ def run(env: Env) -> Outcome:
             kept.append(v)
     del out.violations[before:]
     out.violations.extend(kept)
+    # second half (after everything above, so that the streams above are what they were): payloads that to_serialized did not
+    # write, the full to_dict -> JSON -> from_dict path with the resumed run's closed form, pause points with nothing in flight
+    c12x.payload_stream(env, out, env.budget(400, 8000))
+    c12x.todict_stream(env, out, env.budget(300, 6000))
+    parked = c12x.parked_runs(env, out, env.budget(30, 600), corpus)
+    suite.runner_corr(out, parked, "engine-runner-resumed-parked")
     return out
